@@ -59,6 +59,7 @@ type c18Obs struct {
 	MaxInside  int32   `json:"maxInside"`
 	Probe      []bool  `json:"probe"`      // final Lock+Unlock per member succeeded
 	Leftover   int     `json:"leftover"`   // keys left under the lock prefix at the end
+	Stale      int     `json:"stale"`      // keys under the lock prefix when every goroutine is done, before the probe
 	UnlockErrs int     `json:"unlockErrs"` // Unlock returned an error (etcd trouble; case inconclusive)
 	Members    int     `json:"members"`
 }
@@ -185,6 +186,11 @@ func c18Exec(raw json.RawMessage) interface{} {
 	sort.Slice(obs.Events, func(i, j int) bool { return obs.Events[i].Seq < obs.Events[j].Seq })
 	if obs.Events == nil {
 		obs.Events = []c18Ev{}
+	}
+	if kvs, err := c18Members[0].GetPrefix(name + "/"); err == nil {
+		obs.Stale = len(kvs)
+	} else {
+		obs.Stale = -1
 	}
 	// the lock must be free now: every member can take and release it
 	for m := 0; m < in.Members; m++ {
